@@ -578,3 +578,167 @@ func (w *World) gateHolds(fn *ssa.Function, gateErr atom, more ...atom) (bool, s
 	}
 	return true, ""
 }
+
+// mayCanons: the canonical forms of the values v may stand for — phis split,
+// the results of module helpers replaced by what the helper returns (printed with
+// the helper's parameters bound to the call's arguments), a helper's parameter
+// replaced by the arguments of its call sites. Used by rules that ask "is this
+// the value loaded from X" wherever the loading was moved to.
+func (w *World) mayCanons(v ssa.Value, depth int) []string {
+	seen := map[string]bool{}
+	var out []string
+	add := func(s string) {
+		if !seen[s] {
+			seen[s] = true
+			out = append(out, s)
+		}
+	}
+	var walk func(v ssa.Value, d int)
+	walk = func(v ssa.Value, d int) {
+		v = stripConv(v)
+		add(w.Canon(v))
+		add(w.CanonDeep(v))
+		if d > depth {
+			return
+		}
+		switch x := v.(type) {
+		case *ssa.Phi:
+			for _, e := range x.Edges {
+				walk(e, d+1)
+			}
+		case *ssa.Extract:
+			if c, ok := x.Tuple.(*ssa.Call); ok {
+				w.mayCanonsOfCall(c, x.Index, d, walk)
+			}
+		case *ssa.Call:
+			w.mayCanonsOfCall(x, 0, d, walk)
+		case *ssa.UnOp:
+			// a copy of what a computed pointer points to (`*loaded`): the pointer's sources
+			if x.Op == token.MUL {
+				switch x.X.(type) {
+				case *ssa.Extract, *ssa.Call, *ssa.Phi, *ssa.Parameter:
+					walk(x.X, d+1)
+				}
+			}
+		case *ssa.Parameter:
+			fn := x.Parent()
+			pi := -1
+			for i, p := range fn.Params {
+				if p == x {
+					pi = i
+				}
+			}
+			if pi < 0 || fn.Parent() != nil {
+				return
+			}
+			for _, cs := range w.nodeCallers(fn) {
+				if w.mayScope != nil && !w.mayScope[cs.Caller] {
+					continue // only the call sites below the function the rule is about
+				}
+				if cs.Site != nil && pi < len(cs.Site.Common().Args) && !cs.Site.Common().IsInvoke() {
+					walk(cs.Site.Common().Args[pi], d+1)
+				}
+			}
+		}
+	}
+	walk(v, 0)
+	return out
+}
+
+func (w *World) mayCanonsOfCall(c *ssa.Call, idx int, d int, walk func(ssa.Value, int)) {
+	cal := c.Common().StaticCallee()
+	if cal == nil || !w.InModule(cal) || cal.Blocks == nil || len(cal.Params) != len(c.Common().Args) {
+		return
+	}
+	env := map[*ssa.Parameter]string{}
+	for j, p := range cal.Params {
+		env[p] = w.Canon(c.Common().Args[j])
+	}
+	w.inlineEnv = append(w.inlineEnv, env)
+	defer func() { w.inlineEnv = w.inlineEnv[:len(w.inlineEnv)-1] }()
+	for _, b := range cal.Blocks {
+		if ret, ok := lastInstr(b).(*ssa.Return); ok && b != cal.Recover && idx < len(ret.Results) {
+			walk(ret.Results[idx], d+1)
+		}
+	}
+}
+
+func containsAny(ss []string, subs ...string) bool {
+	for _, s := range ss {
+		for _, sub := range subs {
+			if strings.Contains(s, sub) {
+				return true
+			}
+		}
+	}
+	return false
+}
+
+// isMinOf: v is the smaller of the two values that print as x and y — a call of a
+// min helper on them, or the merge of an if that picks one of them by comparing
+// the two (every spelling of the comparison; ties may go either way).
+func (w *World) isMinOf(v ssa.Value, x, y string) bool {
+	v = stripConv(v)
+	pair := func(a, b string) bool { return (a == x && b == y) || (a == y && b == x) }
+	switch t := v.(type) {
+	case *ssa.Call:
+		nm := strings.ToLower(callName(t.Common()))
+		if bi, ok := t.Common().Value.(*ssa.Builtin); ok {
+			nm = bi.Name()
+		}
+		if nm == "min" && len(t.Common().Args) == 2 {
+			return pair(w.Canon(t.Common().Args[0]), w.Canon(t.Common().Args[1]))
+		}
+	case *ssa.Phi:
+		if len(t.Edges) != 2 || !pair(w.Canon(t.Edges[0]), w.Canon(t.Edges[1])) {
+			return false
+		}
+		blk := t.Block()
+		d := blk.Idom()
+		if d == nil {
+			return false
+		}
+		ifi, ok := lastInstr(d).(*ssa.If)
+		if !ok {
+			return false
+		}
+		bo, ok := ifi.Cond.(*ssa.BinOp)
+		if !ok || !pair(w.Canon(bo.X), w.Canon(bo.Y)) {
+			return false
+		}
+		// which edge of the phi is taken when the condition is true
+		trueEdge := -1
+		for i, p := range blk.Preds {
+			switch {
+			case p == d && d.Succs[0] == blk && d.Succs[1] != blk:
+				trueEdge = i
+			case p != d && (p == d.Succs[0] || d.Succs[0].Dominates(p)) && !(p == d.Succs[1] || d.Succs[1].Dominates(p)):
+				trueEdge = i
+			}
+		}
+		if trueEdge < 0 {
+			return false
+		}
+		tv := w.Canon(t.Edges[trueEdge])
+		switch bo.Op {
+		case token.LSS, token.LEQ:
+			return tv == w.Canon(bo.X)
+		case token.GTR, token.GEQ:
+			return tv == w.Canon(bo.Y)
+		}
+	}
+	return false
+}
+
+// mayCanonsBelow: mayCanons with helper parameters resolved only at the call sites
+// inside root and the module functions it calls (two levels).
+func (w *World) mayCanonsBelow(root *ssa.Function, v ssa.Value, depth int) []string {
+	scope := map[*ssa.Function]bool{}
+	for _, g := range w.withModuleCallees(root, 2) {
+		scope[g] = true
+	}
+	saved := w.mayScope
+	w.mayScope = scope
+	defer func() { w.mayScope = saved }()
+	return w.mayCanons(v, depth)
+}
